@@ -49,6 +49,17 @@ Theorem C06_final_is_state_at_stopret : forall c s i s',
   fin_at s' i = Some (cur_at s i).
 Proof. exact stopret_records. Qed.
 
+(* ... it is also stored into the map at that very step (definitional), so the map is right from each Stop()
+   return on.  When the shutdown timeout ENDS the wait (sd_timed_out = true) C06_after_shutdown does not apply:
+   the stores after the wait are skipped (the monitors may still be running) and a monitor that was still
+   catching up may have written an older value after this store - for such a shutdown only this step-level
+   statement holds in general; the trace monitor C06.final checks the timed-out case for the entries that have
+   no other writer (monitor never subscribed, not Reloadable: harness family timeoutfinal). *)
+Theorem C06_stop_stores_state : forall c s i s',
+  step c s (LStopRet i) = Some s' -> stateable (spec c i) = true -> i < length (smap s) ->
+  smap_at s' i = Some (cur_at s i).
+Proof. exact stopret_stores. Qed.
+
 (* ... and nothing but a Stop() return ever changes a recorded value *)
 Theorem C06_final_stable : forall c s l s' i v,
   step c s l = Some s' -> fin_at s i = Some v -> (forall j, l <> LStopRet j) -> fin_at s' i = Some v.
@@ -77,6 +88,7 @@ Print Assumptions C06_converge.
 Print Assumptions C06_after_shutdown.
 Print Assumptions C06_final_is_state_at_stopret.
 Print Assumptions C06_final_stable.
+Print Assumptions C06_stop_stores_state.
 Print Assumptions C06_dedupe.
 Print Assumptions C06_close_once.
 Print Assumptions C06_no_send_on_closed.
